@@ -467,6 +467,43 @@ def respell_check(ctx):
     rec.outcome("respell")
 
 
+def partner_history_check(ctx):
+    """History across two schema objects of one process: a text is identified under the (cached) standard schema, where its
+    last term is an extension; then a partnered library that makes that term a node is loaded from its unmerged form (the
+    loader builds it on a copy of the cached standard schema); the same text under the library is the library's node."""
+    from hed import load_schema_version
+    from hed.schema import from_string
+    from hed.models.hed_tag import HedTag
+    rec = ctx.rec
+    for libname, partner in (("testlib_2.0.0", "8.2.0"), ("testlib_3.0.0", "8.2.0")):
+        try:
+            std = load_schema_version(partner)
+            merged_model = schema_model.load(os.path.join(core.SCHEMA_DATA, f"HED_{libname}.xml"))
+            std_model = schema_model.load(os.path.join(core.SCHEMA_DATA, f"HED{partner}.xml"))
+            unmerged = load_schema_version(libname).get_as_xml_string(save_merged=False)
+            texts = []
+            for t in merged_model.tags:
+                if t.name.casefold() in std_model.by_short or t.parent is None or t.name.casefold() in merged_model.dup_short:
+                    continue
+                if t.parent.name.casefold() in std_model.by_short:
+                    texts.append((f"{t.parent.name}/{t.name}", t))
+                    texts.append((f"{t.parent.long}/{t.name}", t))
+            before = [HedTag(text, std).short_tag for text, _ in texts]     # identified under the standard schema first
+            lib = from_string(unmerged, ".xml")
+            for (text, node), was in zip(texts, before):
+                rec.n("evaluations")
+                rec.n("transitions", 2)
+                rec.n("distinct_nontrivial")
+                tag = HedTag(text, lib)
+                got = (tag.short_tag, tag.long_tag, tag.extension)
+                if got != (node.name, node.long, ""):
+                    rec.violation("C03:partner-history:library-node-identified-as-an-extension-of-its-parent", library=libname,
+                                  text=text, under_standard_first=was, got=got, want=(node.name, node.long, ""))
+        except Exception as e:
+            rec.violation("C03:partner-history:raises:" + type(e).__name__, library=libname, error=repr(e)[:200])
+    rec.outcome("partner-history")
+
+
 def reidentify_check(ctx):
     """A string parsed under one schema version and validated under another has the forms a fresh parse under that other
     version has - also where text that is an extension in one version is a schema tag in the other."""
@@ -549,6 +586,7 @@ def run(ctx):
     ctx.parallel(worker, cfgs, ctx.seed)
     bulk_check(ctx, cfgs)
     respell_check(ctx)
+    partner_history_check(ctx)
     rebase_check(ctx, cfgs)
     depth = ctx.pick(3, 5)
     ctx.rec.notes["bounds"]["histories"] = {"schemas": HIST_SCHEMAS, "ops": HIST_OPS, "depth": depth,
